@@ -364,6 +364,7 @@ def run(tier, seed, replay=None):
         kw = dict(x0=guess, eps=eps, nswp=40, preconditioner=prec, max_full=max_full, verbose=False, use_cpp=False)
         if local: kw["local_solver"] = 1 if local == "gmres" else 2
         if i % 6 == 1: kw["rmax"] = np.int64(512); dist["rmax given as int64"] = dist.get("rmax given as int64", 0) + 1          # the documented rank cap as a numpy integer (it does not bind)
+        if i % 6 == 4: kw["kick2"] = rng.choice([1, 2]); dist["kick2 > 0"] = dist.get("kick2 > 0", 0) + 1            # the documented second enrichment (random columns in the residual basis)
         if band is not None: kw["band_diagonal"] = band; dist["band_diagonal option"] = dist.get("band_diagonal option", 0) + 1
         if zero_sum: dist["zero-sum right-hand side"] = dist.get("zero-sum right-hand side", 0) + 1
         try:
